@@ -166,6 +166,7 @@ IdxFor(sh) ==
                        [t |-> "adv", arrs |-> <<[sh |-> <<3>>, v |-> <<1, 1, 1>>]>>, as |-> "list"],
                        [t |-> "adv", arrs |-> <<[sh |-> <<3>>, v |-> <<0, 0, 2>>]>>, as |-> "i4"],       \* index arrays of other integer dtypes
                        [t |-> "adv", arrs |-> <<[sh |-> <<3>>, v |-> <<2, -2, 2>>]>>, as |-> "i1"],
+                       [t |-> "adv", arrs |-> <<[sh |-> <<3>>, v |-> <<-1, 0, 2>>]>>, as |-> "bare"],
                        [t |-> "adv", arrs |-> <<[sh |-> <<3>>, v |-> <<1, 1, 1>>]>>, as |-> "u1"],
                        [t |-> "adv", arrs |-> <<[sh |-> <<2, 2>>, v |-> <<1, -1, 0, 1>>]>>],
                        [t |-> "mask", m |-> [sh |-> <<sh[1]>>, v |-> [i \in 1..sh[1] |-> i % 2 = 1]]]}
